@@ -256,6 +256,17 @@ fn main() {
             if first_break.is_none() { first_break = Some(body); }
         }
     }
+    // model self-test: the model of the pinned tree differs on the corpus witnesses
+    {
+        let mut l = vec![];
+        for (cfg, reqs, _) in cases.iter().take(n_corpus as usize) {
+            l.push(format!("replicas {} {} 0", cfgs(cfg), render_reqs(reqs)));
+            l.push(format!("replicaslegacy {} {} 0", cfgs(cfg), render_reqs(reqs)));
+        }
+        let r = driver::batch(&exe, &l);
+        let detected = r.chunks(2).filter(|c| c[0] != c[1]).count();
+        rep.extra.insert("model_self_test".into(), json!({"mutants": r.len() / 2, "detected": detected}));
+    }
     if let Some(body) = first_break {
         if rep.spec_violations.is_empty() {
             rep.correspondence_break(
